@@ -64,6 +64,9 @@ type diskState struct {
 	real       bool
 	realClosed atomic.Bool
 	root       kvstore.KVStore
+	// armed: the database is shut down right after it took the next write (the write happened; what follows it inside the
+	// wrappers - the Flush of flushkv - meets a closed store)
+	closeAfterSet atomic.Bool
 }
 
 func newDisk(s kvstore.KVStore) *disk { return &disk{KVStore: s, diskState: &diskState{}} }
@@ -166,7 +169,12 @@ func (d *disk) Set(k kvstore.Key, v kvstore.Value) error {
 		return kvstore.ErrStoreClosed
 	}
 
-	return d.seen(d.KVStore.Set(k, v))
+	err := d.seen(d.KVStore.Set(k, v))
+	if err == nil && d.closeAfterSet.CompareAndSwap(true, false) {
+		d.shut()
+	}
+
+	return err
 }
 
 func (d *disk) Has(k kvstore.Key) (bool, error) {
@@ -628,7 +636,7 @@ func (w *world) abandon(cleanly bool) {
 // isSeqOp mirrors parseOp of the Lean model: the requests that are operations of the sequential machine.
 func isSeqOp(f []string) bool {
 	switch strings.Join(f, " ") {
-	case "next", "release", "crash idle", "crash read", "crash write", "crash relwrite", "fnext get", "fnext set", "frelease":
+	case "next", "release", "crash idle", "crash read", "crash write", "crash relwrite", "fnext get", "fnext set", "frelease", "cnext", "crelease":
 		return true
 	}
 	if len(f) == 2 && f[0] == "new" {
@@ -1007,6 +1015,41 @@ func (w *world) execCore(r *hx.Run, op string) string {
 
 			return "ok"
 		}
+	case "cnext", "crelease":
+		// the database is shut down right after it took the write of this call and is opened again after the call: the write
+		// happened, the call must succeed (what the wrappers do after the write - flushkv's Flush - meets a closed store)
+		if w.seq == nil {
+			return "noobj"
+		}
+		w.dsk.real, w.dsk.root = w.faultBy == "closedb" && mapdbClosedFlag(w.root) != nil, w.root
+		w.dsk.closeAfterSet.Store(true)
+		var n uint64
+		var err error
+		if f[0] == "cnext" {
+			n, err = w.seq.Next()
+		} else {
+			err = w.seq.Release()
+		}
+		w.dsk.closeAfterSet.Store(false)
+		w.dsk.open()
+		if err != nil {
+			if f[0] == "cnext" {
+				w.checkExhausted(r, err, "cnext")
+			} else {
+				r.Fail("error-faithful", fmt.Sprintf("Release returned %v although its store write took effect", err), map[string]string{"oracle": "spurious-error", "after": "crelease"})
+			}
+
+			return "err"
+		}
+		if f[0] == "crelease" {
+			w.released = true
+			w.trail = append(w.trail, "release")
+
+			return "ok"
+		}
+		w.handOut(r, n)
+
+		return fmt.Sprintf("num %d", n)
 	case "fnext", "frelease":
 		if w.seq == nil {
 			return "noobj"
@@ -1773,9 +1816,9 @@ func genExtreme(rng *hx.Rng, n int) []string {
 		case x < 95:
 			ops = append(ops, "fnext get")
 		case x < 97:
-			ops = append(ops, "fnext set")
+			ops = append(ops, hx.Pick(rng, []string{"fnext set", "cnext"}))
 		case x < 98:
-			ops = append(ops, "frelease")
+			ops = append(ops, hx.Pick(rng, []string{"frelease", "crelease"}))
 		default:
 			ops = append(ops, hx.Pick(rng, []string{"sibling t", "foreign own", "foreign batch", "foreign sib", "foreign parent", "foreign iter"}))
 		}
@@ -1969,9 +2012,9 @@ func genCase(rng *hx.Rng, n int) []string {
 		case x < 95:
 			emit("fnext get")
 		case x < 97:
-			emit("fnext set")
+			emit(hx.Pick(rng, []string{"fnext set", "fnext set", "cnext"}))
 		case x < 98:
-			emit("frelease")
+			emit(hx.Pick(rng, []string{"frelease", "frelease", "crelease"}))
 		default:
 			ops = append(ops, fmt.Sprintf("par %d %d", rng.Range(2, 4), rng.Range(1, 5)))
 		}
@@ -2185,6 +2228,9 @@ func main() {
 		{"cfg stack view,dbgnil", "new 2", "next", "next", "next", "crash idle", "new 2", "next", "mark"},
 		{"cfg stack root,dbgf:8,flush,realm:7a", "new 1", "next", "release", "next", "crash write", "new 3", "next", "mark"},
 		{"cfg stack view,dbgnilf:16,dbgf:0,dbg", "cfg fault close", "new 3", "next", "fnext set", "next", "frelease", "release", "new 1", "next"},
+		// the database is shut down right after it took the write of a Next / Release (flushkv: the Flush meets a closed store)
+		{"cfg backend flush", "new 2", "cnext", "next", "cnext", "crelease", "new 3", "cnext", "crash idle", "new 1", "next", "mark"},
+		{"cfg stack view,flush,dbg,flush", "cfg fault closedb", "new 1", "cnext", "cnext", "release", "next", "crelease", "new 2", "next", "mark"},
 		// two long keys that differ in their last byte only
 		{"cfg key " + strings.Repeat("ab", 100), "cfg key2 " + strings.Repeat("ab", 99) + "ac", "new 2", "k2 new 3", "next", "k2 next", "k2 next", "next", "next", "crash write", "k2 crash idle", "new 1", "k2 new 1", "next", "k2 next", "mark", "k2 mark"},
 		// other users of the store (other keys of the same view, parent view, sibling views: delete by prefix, clear, batches)
